@@ -16,7 +16,8 @@ from ..core import FAULT, Violation
 from .peer import PeerSim
 
 ACTIVE = ConnectionState.ACTIVE
-LAWS = ["silent", "periodic", "burst", "answer", "answer_wrong", "answer_noid", "mixed", "peer_testreq", "answer_gap"]
+LAWS = ["silent", "periodic", "burst", "answer", "answer_wrong", "answer_noid", "mixed", "peer_testreq", "answer_gap",
+        "gap_silent"]
 
 
 def make_config(seed, tier="quick"):
@@ -58,6 +59,10 @@ def make_config(seed, tier="quick"):
         answer = dict(mode="wrong", delay=round(r.uniform(0, 1.2) * hb, 3))
     elif law == "answer_noid":
         answer = dict(mode="noid", delay=round(r.uniform(0, 1.2) * hb, 3))
+    elif law == "gap_silent":
+        # the peer sends one message numbered ahead (the endpoint asks for a resend and waits), then dies: a session
+        # that awaits a resend is watched like any other
+        plan.append((round(r.uniform(0.0, 1.5) * hb, 3), "gap", r.choice([1, 2, 5])))
     elif law == "peer_testreq":
         per = max(0.3, r.uniform(0.2, 0.9) * hb)
         t = r.uniform(0, per)
@@ -68,11 +73,11 @@ def make_config(seed, tier="quick"):
             rid = {"unique": f"PQ{k}", "const": "TEST", "coarse": f"T{k // 3}", "numeric": str(1700000000 + k // 2)}[ids]
             plan.append((round(t, 3), "testreq", rid))
             t += per
-    if r.random() < 0.15 and law not in ("answer_wrong",):
+    if r.random() < 0.15 and law not in ("answer_wrong", "gap_silent"):
         # an unsolicited Heartbeat carrying a TestReqID nobody asked for, while nothing is outstanding
         plan.append((round(r.uniform(0, 0.5) * hb, 3), "hb_id", "777"))
     rq = random.Random(seed ^ 0xC1277)
-    if rq.random() < 0.15:
+    if rq.random() < 0.15 and law != "gap_silent":  # (after the gap the peer is dead: no further frames of its own)
         # the peer asks for a resend of an empty / invalid range (nothing to replay): ordinary valid traffic as far
         # as the watchdog is concerned, and the session has to be watched exactly as before afterwards
         plan.append((round(rq.uniform(0, 0.6) * span, 3), "peer_rr", rq.choice(["beyond", "zero", "inverted", "all"])))
@@ -142,6 +147,7 @@ class WatchdogSim(PeerSim):
         self.wrong_sent_at = []  # times at which a wrong-id heartbeat was sent
         self.app_id = 0
         self.n_eut_testreq = 0
+        self.state_log = []
         self.prelude_state = "pending" if cfg.get("prelude_drop") else "none"
         self.n_retries = 0
         self._retry_pending = False
@@ -207,6 +213,7 @@ class WatchdogSim(PeerSim):
             self.spawn(self.app_testreq("early"), "app-testreq-early")
         if kind == "state":
             st = args[0]
+            self.state_log.append((now, st))
             if st == ACTIVE and self.t0 is None:
                 if self.prelude_state == "pending":
                     # first session: the peer hangs up shortly afterwards
@@ -279,6 +286,11 @@ class WatchdogSim(PeerSim):
             p.send("D", [("11", f"P-{self.app_id}"), ("55", "ES"), ("54", "1"), ("38", "1"), ("44", "1")], spec={"plan": "app"})
         elif kind == "testreq":
             p.send("1", [("112", arg)], spec={"plan": "testreq", "id": arg})
+        elif kind == "gap":
+            self.app_id += 1
+            p.auto["resend"] = False  # (it never fills the gap: it is dead from now on)
+            p.send("D", [("11", f"G-{self.app_id}"), ("55", "ES"), ("54", "1"), ("38", "1"), ("44", "1")],
+                   seq=p.next_out + int(arg), spec={"plan": "gap"})
         elif kind == "peer_rr":
             nxt = self.live().next_num_out
             b, e = {"beyond": (nxt + 5, 0), "zero": (0, 0), "inverted": (max(2, nxt - 1), 1), "all": (1, 0)}[arg]
@@ -390,6 +402,12 @@ class WatchdogSim(PeerSim):
             a, nxt = bounds[i], bounds[i + 1]
             if nxt - a >= I + 2 + 1e-9:
                 if outstanding_at(a):
+                    continue
+                st_a = next((st for (t, st) in reversed(self.state_log) if t <= a + 1e-6), None)
+                if st_a is not None and st_a != ACTIVE:
+                    # "on an active session ... sends a TestRequest": while a resend is awaited the library probes
+                    # nothing (the dead-peer deadline O2 still applies)
+                    self.probe("silence_while_not_ACTIVE_no_testrequest_demanded")
                     continue
                 if not any(a - 1e-9 <= t <= a + I + 2 + 1e-9 for (t, _) in treq):
                     raise Violation("no-testrequest", f"C12/no-testrequest-after-silence/{ctx}",
